@@ -121,8 +121,17 @@ def check_compact(ctx, alg, enc, zip_name, payload, n_flips, extra=None):
     if r[0] != "ok" or r[2] != payload:
         ctx.violation("C03:interop:reference-ciphertext-not-decrypted-by-authlib:%s:%s" % (alg, enc),
                       "a JWE produced by the independent implementation is not decrypted to the plaintext by the library", case)
-    # --- round trip, mutations, splices, other keys
+    # --- the same serialization handed over as text or as a mutable buffer decrypts alike, and the caller's buffer is left as it was
     hdr0 = json.loads(E.b64d(token.split(b".")[0]))
+    for tname, conv in (("str", lambda t: t.decode("ascii")), ("bytearray", bytearray)):
+        arg = conv(token)
+        r = real_compact(jwe, arg, E.material(kid))
+        if r[0] != "ok" or r[2] != payload or r[1] != hdr0:
+            ctx.violation("C03:input-type:%s" % tname, "the serialization handed over as %s is not decrypted to the header and plaintext that the same "
+                          "octets give as bytes" % tname, dict(case, outcome=r[:2]))
+        if bytes(arg if not isinstance(arg, str) else arg.encode()) != token:
+            ctx.violation("C03:input-mutated:%s" % tname, "decryption changed the caller's buffer", case)
+    # --- round trip, mutations, splices, other keys
     tests = [("original", token, kid)] + [(lab, t, kid) for lab, t in mutations(rng, token, n_flips)]
     a, b = token.split(b"."), ref_token.split(b".")
     for i, name in enumerate(["header", "ek", "iv", "ct", "tag"]):
